@@ -1229,6 +1229,13 @@ M('sweep11.ts.leap_tz_gt2', ['C15'], 'core/src/timestamp.rs',
   'if (year - 68).trailing_zeros() >= 2 {',
   'if (year - 68).trailing_zeros() > 2 {', 'C15.R5:leap-flag-table')
 
+M('sweep11.macros.evt_level_dropped', ['C17'], 'macros/src/build.rs',
+  '    push_evt_props(&mut props, opts.level)?;\n',
+  '', 'C17.R6:macro-level-used')
+M('sweep11.macros.emit_level_dropped', ['C17'], 'macros/src/emit.rs',
+  'push_evt_props(&mut props, opts.level)?;',
+  'push_evt_props(&mut props, None)?;', 'C17.R6:macro-level-used')
+
 # ---- round 6 (own probing of the blocking entry points): Trigger, send_or_wait, callbacks ------------------------------------------
 M("C07.wait_zero_timeout_reports_flushed", ["C07"], "batcher/src/sync.rs",
   "            if timeout == Duration::ZERO {\n                return false;", "            if timeout == Duration::ZERO {\n                return true;", "C07.R4:Trigger")
